@@ -152,28 +152,28 @@ var trustedReqLen = map[string]map[int]int64{
 // ---- engine --------------------------------------------------------------------------------------
 
 type E3 struct {
-	p        *Prog
-	rngMemo  map[ssa.Value]ival
-	inprog   map[ssa.Value]bool
-	retMemo  map[retKey]ival
-	retProg  map[retKey]bool
-	contract map[*ssa.Function]*lenContract // verified repo contracts (nil entry = none)
-	conProg  map[*ssa.Function]bool
-	req      map[*ssa.Function]map[int]int64 // inferred required minimum length per slice parameter
-	reqDone  map[*ssa.Function]bool
-	immLen   map[*ssa.Global]int64 // immutable package-level slices/strings: literal length
-	immRange map[*ssa.Global]ival  // immutable integer tables: element range
-	tables   *Tables
-	bnd      map[*ssa.Function]*fnBnd
-	bndProg  map[*ssa.Function]bool
-	loadMemo map[*ssa.UnOp]ssa.Value
-	monoProg map[*ssa.Phi]bool
-	vn       map[string]ssa.Value
-	vnBusy   map[*ssa.BinOp]bool
-	pureMemo map[*ssa.Function]int
-	pureCalls map[*ssa.Function]map[string]ssa.Value
+	p           *Prog
+	rngMemo     map[ssa.Value]ival
+	inprog      map[ssa.Value]bool
+	retMemo     map[retKey]ival
+	retProg     map[retKey]bool
+	contract    map[*ssa.Function]*lenContract // verified repo contracts (nil entry = none)
+	conProg     map[*ssa.Function]bool
+	req         map[*ssa.Function]map[int]int64 // inferred required minimum length per slice parameter
+	reqDone     map[*ssa.Function]bool
+	immLen      map[*ssa.Global]int64 // immutable package-level slices/strings: literal length
+	immRange    map[*ssa.Global]ival  // immutable integer tables: element range
+	tables      *Tables
+	bnd         map[*ssa.Function]*fnBnd
+	bndProg     map[*ssa.Function]bool
+	loadMemo    map[*ssa.UnOp]ssa.Value
+	monoProg    map[*ssa.Phi]bool
+	vn          map[string]ssa.Value
+	vnBusy      map[*ssa.BinOp]bool
+	pureMemo    map[*ssa.Function]int
+	pureCalls   map[*ssa.Function]map[string]ssa.Value
 	loadMemoAny map[*ssa.UnOp]ssa.Value
-	finv     map[fieldKey]*fieldInv
+	finv        map[fieldKey]*fieldInv
 }
 
 type retKey struct {
@@ -287,7 +287,81 @@ func instrDominates(a, b ssa.Instruction) bool {
 // clobberedBetween: some instruction that may execute between a and b (a dominates b) may change the
 // loaded location: a store to the same field (any base), or a call other than a builtin / a call that
 // cannot reach the object (no pointer-like argument and not a method on it).
+// immutableFreeVar: the captured variable is assigned exactly once, before the closure is created, and no closure
+// that captures it stores to it: every load of it inside the closure yields that one value.
+func (e *E3) immutableFreeVar(fv *ssa.FreeVar) bool {
+	g := fv.Parent()
+	if g == nil || g.Parent() == nil {
+		return false
+	}
+	idx := -1
+	for j, q := range g.FreeVars {
+		if q == fv {
+			idx = j
+		}
+	}
+	if idx < 0 {
+		return false
+	}
+	parent := g.Parent()
+	okAll := true
+	found := false
+	eachInstr(parent, func(_ *ssa.BasicBlock, _ int, in ssa.Instruction) {
+		mc, ok := in.(*ssa.MakeClosure)
+		if !ok || mc.Fn != ssa.Value(g) || idx >= len(mc.Bindings) {
+			return
+		}
+		found = true
+		cell, ok := mc.Bindings[idx].(*ssa.Alloc)
+		if !ok {
+			okAll = false
+			return
+		}
+		nStores := 0
+		for _, rf := range refs(cell) {
+			switch x := rf.(type) {
+			case *ssa.Store:
+				if x.Addr != ssa.Value(cell) {
+					okAll = false // the cell's address is stored somewhere
+					continue
+				}
+				nStores++
+				if !instrDominates(x, mc) {
+					okAll = false
+				}
+			case *ssa.UnOp, *ssa.DebugRef:
+			case *ssa.MakeClosure:
+				// another (or the same) closure capturing the cell: it must not store to its free variable
+				if h, ok := x.Fn.(*ssa.Function); ok {
+					for j, bnd := range x.Bindings {
+						if bnd == ssa.Value(cell) && j < len(h.FreeVars) {
+							for _, r2 := range refs(h.FreeVars[j]) {
+								if st, ok := r2.(*ssa.Store); ok && st.Addr == ssa.Value(h.FreeVars[j]) {
+									okAll = false
+								} else if _, isLoad := r2.(*ssa.UnOp); !isLoad {
+									if _, isDbg := r2.(*ssa.DebugRef); !isDbg {
+										okAll = false // passed on: could be written elsewhere
+									}
+								}
+							}
+						}
+					}
+				}
+			default:
+				okAll = false
+			}
+		}
+		if nStores != 1 {
+			okAll = false
+		}
+	})
+	return found && okAll
+}
+
 func (e *E3) clobberedBetween(a, b *ssa.UnOp) bool {
+	if fv, ok := a.X.(*ssa.FreeVar); ok && b.X == ssa.Value(fv) && e.immutableFreeVar(fv) {
+		return false
+	}
 	f := a.Parent()
 	// region: instructions after a in a's block, before b in b's block, and all blocks on paths a→b
 	fromA := blocksReachableFrom(a.Block())
@@ -1233,14 +1307,14 @@ type edge struct {
 }
 
 type factGraph struct {
-	e       *E3
-	edges   []edge
-	nodes   map[termT]bool
-	at      *ssa.BasicBlock
-	conds   []Cond
-	depth   map[termT]int
-	pending []*ssa.BinOp // narrow additions/subtractions whose no-wrap condition needs path facts
-	arith   []*ssa.BinOp // non-wrapping x ± y whose relation to x is refined with the path facts about y
+	e        *E3
+	edges    []edge
+	nodes    map[termT]bool
+	at       *ssa.BasicBlock
+	conds    []Cond
+	depth    map[termT]int
+	pending  []*ssa.BinOp // narrow additions/subtractions whose no-wrap condition needs path facts
+	arith    []*ssa.BinOp // non-wrapping x ± y whose relation to x is refined with the path facts about y
 	pendDone map[*ssa.BinOp]bool
 }
 
@@ -1422,6 +1496,24 @@ func (g *factGraph) touch(t termT, d int) {
 		}
 	case *ssa.Extract:
 		g.countFacts(t, x, d)
+	case *ssa.Call:
+		// searches of the standard library: −1 ≤ r, and r ≤ len(s) − 1 for a byte search (r ≤ len(s) for a
+		// substring search, whose needle may be empty)
+		if sc := x.Call.StaticCallee(); sc != nil && sc.Pkg != nil && (sc.Pkg.Pkg.Path() == "strings" || sc.Pkg.Pkg.Path() == "bytes") && len(x.Call.Args) >= 1 && isIntType(x.Type()) {
+			slack := int64(-2)
+			switch sc.Name() {
+			case "IndexByte", "LastIndexByte", "IndexRune", "IndexAny", "LastIndexAny", "IndexFunc", "LastIndexFunc":
+				slack = -1
+			case "Index", "LastIndex":
+				slack = 0
+			}
+			if slack > -2 {
+				lt := termT{v: e.lenBase(x.Call.Args[0]), len: true}
+				g.touch(lt, d+1)
+				g.add(lt, t, slack) // r − len ≤ slack
+				g.add(t, zeroT, 1)  // −r ≤ 1
+			}
+		}
 	}
 }
 
